@@ -23,8 +23,7 @@ TRUSTED = ["Coq 8.16.1 kernel + vm_compute (primitive floats bit-exact)", "Rust 
 ASSUMPTIONS = ["Rust semantics of Vec/usize as modelled (checked indexing, debug overflow checks)",
                "the totality theorem needs len u <= MAX (= 1000, regenerated): beyond that the code itself returns its iteration-cap error",
                "the sampled cases are where model and code were compared; the theorems are about the model"]
-UNPROVED = ["the SIZE of the float residual u - (q*v + r) (rounding accuracy) is searched (<= 1e-10 * scale, exact rational recomputation), not proved; "
-            "proved instead: the exact identity over any field, and termination / Ok / degree condition over EVERY arithmetic (floats included)",
+UNPROVED = ["the size of the float residual u - (q*v + r) is proved in the standard rounding model and at binary64 under finite q, r and a computable no-underflow condition (polydiv_rounded_identity(_float): |e_k| <= gam(2M)(|u_k| + sum|q_i||v_(k-i)|), M = min(len u + 1 - len v, len v); about 1.6e-15 where the search demands 1e-10); NOT proved: that condition for arbitrary inputs (e.g. polydiv [1;1] [1;0] = Ok([inf],[-inf]) is outside it)",
             "operand non-mutation is a run-time observation of the executor"]
 
 MANIFEST = dict(
@@ -37,7 +36,7 @@ MANIFEST = dict(
           "The pre-repair loop is refuted in Coq on the float instance (x / 49x runs into the cap). The same Gallina function is run against the "
           "implementation (Rat vs Qc exact; f64/Complex bitwise, outcome compared exactly) on all dividend degrees 0..10 x divisor degrees 0..6, and "
           "an exact recomputation of u - (q*v + r) searches for a failing input (exact over Rat, <= 1e-10*scale over floats)."),
-    note="The size of the floating-point residual is searched, not proved; the exact-arithmetic identity and float termination are theorems.",
+    note="The size of the floating-point residual is a theorem in the standard rounding model and at binary64 absent overflow/underflow, and searched on the implementation; the exact-arithmetic identity and float termination are theorems.",
     technique="Coq proof (any arithmetic / any field) + legacy refutation by vm_compute on primitive floats + differential execution + exact residual search",
     design="7 (C12)")
 
